@@ -7,10 +7,17 @@ From Common Require Import Prelude.
 From C10 Require Import Model FactsDefs FactsCheckFM.
 Local Open Scope N_scope.
 
-(* `values` is a std::vector<std::pair<KEY,VALUE>> without initialiser and FlatMap() = default *)
+(* `values` is a std::vector<std::pair<KEY,VALUE>> without initialiser, FlatMap() = default, and `c[k]` on a
+   const FlatMap still does not compile (the reason operator[] const is excluded) *)
 Theorem facts_fm_members : ffacts_ok gen_ffacts = true.
 Proof. exact FactsCheckFM.fm_members_lemma. Qed.
 Print Assumptions facts_fm_members.
+
+(* closed world: the members FlatMap declares are exactly the ones covered by the tables above/below or excluded
+   with a reason in FactsDecls.v (operator[] const: cannot be instantiated, re-checked by facts_fm_members) *)
+Theorem facts_fm_declared : gen_fm_declared = fm_declared_expected.
+Proof. exact FactsCheckFM.fm_declared_lemma. Qed.
+Print Assumptions facts_fm_declared.
 
 (* lookup (both overloads) is  return std::find_if(values.begin(), values.end(), [&](item){ return item.first == key; }) *)
 Theorem facts_fm_lookup : fm_agree [MLookup; MLookupC].
